@@ -7,6 +7,7 @@ import (
 	"bytes"
 	"encoding/binary"
 	"fmt"
+	index "github.com/blevesearch/bleve_index_api"
 	"hash/crc32"
 	"math"
 	"os"
@@ -48,7 +49,7 @@ type World struct {
 
 var chunkModes = []uint32{1, 2, 3, 5, 7, 64, 1024, 1025, 1026}
 var legacyModes = []uint32{1, 2, 3, 7, 64, 1024}
-var mergeBufs = []int{16, 64, 256, 4096, 1 << 20}
+var mergeBufs = []int{16, 64, 256, 4096, 1 << 20, 1, 3, 7, 0}
 
 // newWorldBadSyn is newWorld for the drivers whose oracle is "the same answer as
 // alone", errors included (C11, C20): one synonym world in six contains a
@@ -63,6 +64,21 @@ func newWorldBadSyn(r *RunCtx, wantSyn bool) *World {
 		if len(v) == 0 || v[0] != "" {
 			w.Cfg.SynFields[0].Vocab = append([]string{""}, v...)
 		}
+		// If the builder refuses a zero-length synonym outright (a legitimate way of
+		// closing the gap between what it writes and what the reader accepts), there
+		// is no unloadable thesaurus to be had: an ordinary world then.
+		probe := &BatchSpec{Docs: []DocSpec{{ID: "probe", IsSyn: true, Fields: []FieldSpec{
+			{Name: "_id", Kind: 't', Opts: index.IndexField | index.StoreField, Typ: 't', Value: []byte("probe"), Len: 1, Toks: []TokSpec{{Term: "probe", Freq: 1}}},
+			{Name: w.Cfg.SynFields[0].Name, Kind: 's', Opts: w.Cfg.SynFields[0].Opts, Typ: 's', Syn: []SynDef{{Term: "a", Syns: []string{""}}}},
+		}}}}
+		seg, _, err := plugin.New(Materialize(probe, nil))
+		if err != nil {
+			w.Cfg.BadSyn = false
+			w.XOpts.ThesErrOK = false
+			r.count("probe.syn.empty-synonym-rejected-by-builder")
+			return w
+		}
+		seg.Close()
 		r.count("probe.syn.unloadable-thesaurus-world")
 	}
 	return w
@@ -76,6 +92,9 @@ func newWorld(r *RunCtx, wantSyn, wantVec bool) *World {
 	// tuning knobs (buggify): per-run constants
 	zap.LegacyChunkMode = legacyModes[c.Choose(len(legacyModes), "knob.legacychunk")]
 	zap.DefaultChunkMode = chunkModes[c.Choose(len(chunkModes), "knob.chunkmode")]
+	if w.Cfg.Dense && c.Choose(4, "knob.densemode") != 0 {
+		zap.DefaultChunkMode = []uint32{1025, 1026}[c.Choose(2, "knob.densemodev")]
+	}
 	zap.DefaultFileMergerBufferSize = mergeBufs[c.Choose(len(mergeBufs), "knob.mergebuf")]
 	if c.Prob(1, 4, "knob.newbuf") {
 		zap.NewSegmentBufferNumResultsBump = c.Choose(200, "knob.bump")
@@ -116,6 +135,9 @@ func (w *World) genBatchSize() int {
 	if w.Cfg.Many {
 		return []int{0, 1, 2, 3, 5}[c.Choose(5, "batch.size")]
 	}
+	if w.Cfg.Dense && c.Bool("batch.dense") {
+		return []int{1024, 1030, 1100, 1400, 2060, 2100}[c.Choose(6, "batch.denseN")]
+	}
 	den := w.LargeDen
 	if den == 0 {
 		den = 60
@@ -123,7 +145,7 @@ func (w *World) genBatchSize() int {
 	if c.Prob(1, den, "batch.large") {
 		if c.Prob(1, 4, "batch.boundary") {
 			// document counts at the doc-value / posting chunk boundaries
-			return []int{1023, 1024, 1025, 2048}[c.Choose(4, "batch.boundaryN")]
+			return []int{1023, 1024, 1025, 2048, 255, 256, 257, 512}[c.Choose(8, "batch.boundaryN")]
 		}
 		if w.LargeDen != 0 && c.Bool("batch.verylarge") {
 			// postings lists beyond 1024 hits: chunk modes 1025/1026 then depend on
@@ -166,6 +188,9 @@ func (w *World) Build(spec *BatchSpec, env *buildEnv) *SegH {
 		Roots: map[int]bool{w.nseg: true}}
 	r.count("op.build")
 	w.countSpecProbes(spec)
+	if w.Cfg.Dense && len(spec.Docs) >= 1024 {
+		r.count("probe.dense.batch>=1024")
+	}
 	return h
 }
 
@@ -239,7 +264,16 @@ func (w *World) CloseAll() {
 // genDrops draws a deletion bitmap for a segment of n documents. The returned
 // kind is used for reach statistics.
 func genDrops(c *Chooser, n uint64) (*roaring.Bitmap, string) {
-	switch c.Choose(9, "drops.kind") {
+	switch c.Choose(10, "drops.kind") {
+	case 9:
+		// several documents anywhere: enough to move a long postings list across
+		// one of the 1024 marks
+		b := roaring.New()
+		k := 5 + c.Choose(40, "drops.several")
+		for i := 0; i < k && n > 0; i++ {
+			b.Add(uint32(c.Choose(int(n), "drops.severalbit")))
+		}
+		return b, "several"
 	case 8:
 		// the first one to three documents
 		b := roaring.New()
@@ -556,6 +590,30 @@ func (w *World) checkMerged(out segment.Segment, outCanon *Canon, ins []*SegH, d
 		}
 	}
 	if parts.DocValues {
+		// the list of visitable doc-value fields of the merged segment: no field
+		// that had no doc values in any input, and every field that still has a
+		// doc value among the survivors (a doc-value field without any term left
+		// may or may not be listed: zapx drops it, which loses nothing)
+		inUnion := map[string]bool{}
+		for _, h := range ins {
+			for _, f := range h.Canon.DVFields {
+				inUnion[f] = true
+			}
+		}
+		listed := map[string]bool{}
+		for _, f := range o.DVFields {
+			listed[f] = true
+			if !inUnion[f] {
+				r.fail("C06.dvfields", "merged", "the merged segment lists %q among its doc-value fields (%q), no input does", f, o.DVFields)
+			}
+		}
+		for f, docs := range e.DV {
+			for _, terms := range docs {
+				if len(terms) > 0 && !listed[f] {
+					r.fail("C06.dvfields", "merged", "field %q has doc values among the survivors but the merged segment lists only %q", f, o.DVFields)
+				}
+			}
+		}
 		fields := map[string]bool{}
 		for f := range e.DV {
 			fields[f] = true
